@@ -9,6 +9,7 @@ use crate::{guarded, Caught, Ctx};
 use std::rc::Rc;
 use xml_dom::{AsNode, Document, Node, NodeList, XmlDocument, XmlNode};
 
+const SCRATCH_DOC: &str = "<s a='1'>t<!--c--><![CDATA[d]]><?p q?>&amp;</s>";
 const FOREIGN_DOC: &str = "<f fa='1'><g>t</g><!--fc--><?fp d?></f>";
 const GOOD_NAMES: &[&str] = &["a", "b", "c", "item", "x1", "_u", "n", "k"];
 const BAD_NAMES: &[&str] = &["1a", "-a", "a b", "", "a<", ".x", "a&b", "a>", " a", "a\u{1}"];
@@ -244,11 +245,207 @@ pub fn c12(ctx: &mut Ctx) {
     }
 }
 
-pub fn c13(_: &mut Ctx) {}
+// ---------------------------------------------------------------------------------------------
+// C13: DOM Level 1 effect, specified exception, atomic failure (lock-step with the model)
+
+fn doc_handle(pool: &Pool, d: usize) -> usize { pool.find(&pool.docs[d].as_node(), d).unwrap_or(0) }
+
+fn real_parent(pool: &Pool, i: usize) -> Option<usize> { let h = &pool.h[i]; h.node.parent_node().map(|p| pool.find(&p, h.doc).unwrap_or(usize::MAX)) }
+
+/// everything a caller can observe about the pool's nodes: per-document dumps, parents, child lists, data
+#[derive(PartialEq, Clone)]
+pub struct Snapshot { dumps: Vec<String>, parents: Vec<Option<usize>>, children: Vec<Vec<usize>>, data: Vec<Option<String>>, ser: Vec<String>, attrs: Vec<Vec<usize>> }
+
+/// reference lines: white space of the replacement text as a space (it reads differently in attributes and in content)
+fn canon_dump(s: &str) -> String { if s.is_empty() { return String::new(); } s.lines().map(|l| if l.starts_with("R ") && !l.contains(" \"&#") { l.replace("\\n", " ").replace("\\t", " ").replace("\\r", " ") } else { l.to_string() }).collect::<Vec<_>>().join("\n") + "\n" }
+
+pub fn snapshot(h: &Hist) -> Result<Snapshot, String> {
+    let mut s = Snapshot { dumps: vec![], parents: vec![], children: vec![], data: vec![], ser: vec![], attrs: vec![] };
+    for d in &h.docs { s.dumps.push(canon_dump(&crate::obs::dump_tree(&d.dom, OPT_RAW_TREE)?)); s.ser.push(d.dom.to_string()); }
+    for i in 0..h.pool.h.len() {
+        s.parents.push(real_parent(&h.pool, i));
+        s.children.push(children_of(&h.pool, i));
+        s.data.push(h.pool.data_of(i));
+        let hd = &h.pool.h[i];
+        s.attrs.push(if hd.kind == K::Element { hd.node.attributes().map(|m| m.iter().filter_map(|a| h.pool.find(&a.as_node(), hd.doc)).collect()).unwrap_or_default() } else { vec![] });
+    }
+    Ok(s)
+}
+
+fn what_changed(a: &Snapshot, b: &Snapshot) -> &'static str {
+    if a.dumps != b.dumps { "tree" } else if a.ser != b.ser { "serialization" } else if a.parents != b.parents { "parent" } else if a.children != b.children { "children" } else if a.attrs != b.attrs { "attributes" } else if a.data != b.data { "data" } else { "nothing" }
+}
+
+/// Some((what, detail)) if the library's state differs from the model's
+fn compare_state(h: &Hist, m: &Model, snap: &Snapshot) -> Option<(&'static str, String)> {
+    for d in 0..h.docs.len() {
+        let mut exp = String::new(); m.dump(doc_handle(&h.pool, d), 0, &mut exp);
+        if exp != snap.dumps[d] { return Some(("tree", format!("doc{}: {}", d, first_diff(&exp, &snap.dumps[d])))); }
+    }
+    for i in 0..h.pool.h.len().min(m.n.len()) {
+        let k = h.pool.h[i].kind;
+        if k == K::Other || k == K::Fragment { continue; }
+        let mp = if k == K::Attr { None } else { m.n[i].parent };
+        if k != K::Doctype && snap.parents[i] != mp { return Some(("parent", format!("{} has parent {:?}, the model says {:?}", h.pool.describe(i), snap.parents[i].map(|p| if p == usize::MAX { "an unknown node".to_string() } else { h.pool.describe(p) }), mp.map(|p| h.pool.describe(p))))); }
+        if matches!(k, K::Document | K::Element | K::Attr) && snap.children[i] != m.n[i].children { return Some(("children", format!("{} has children {:?}, the model says {:?}", h.pool.describe(i), snap.children[i], m.n[i].children))); }
+        if k == K::Element { let mut a = snap.attrs[i].clone(); a.sort(); let mut b = m.n[i].attrs.clone(); b.sort(); if a != b { return Some(("attributes", format!("{} has attribute nodes {:?}, the model says {:?}", h.pool.describe(i), a, b))); } }
+        let md = match k { K::Text | K::CData | K::Comment | K::PI => Some(m.n[i].data.clone()), K::Attr => Some(m.attr_value(i)), _ => None };
+        if md.is_some() && snap.data[i] != md { return Some(("data", format!("{} has data {:?}, the model says {:?}", h.pool.describe(i), snap.data[i], md))); }
+    }
+    None
+}
+
+/// class of an ill-formed name argument (part of the signature, so that recorded findings stay narrow)
+fn arg_class(op: &Op) -> &'static str {
+    let name = match op { Op::CreateElement { name, .. } | Op::CreateAttribute { name, .. } | Op::CreateEntRef { name, .. } | Op::SetAttribute { name, .. } => name, Op::CreatePI { target, .. } => target, _ => return "" };
+    if crate::spec::is_name(name) { if name.eq_ignore_ascii_case("xml") { "[reserved-target]" } else { "" } }
+    else if !name.is_empty() && name.chars().all(crate::spec::is_name_char) { "[first-not-namestart]" }
+    else if name.is_empty() { "[empty]" } else { "[illegal-character]" }
+}
+
+/// can a node of this kind hold the string so that it survives serialization?
+pub fn storable(k: K, s: &str) -> bool {
+    if !s.chars().all(crate::spec::is_char) { return false; }
+    match k {
+        K::Text => !s.contains('<') && !s.contains('&') && !s.contains("]]>") && !s.contains('\r'),
+        K::CData => !s.contains("]]>") && !s.contains('\r'),
+        K::Comment => !s.contains("--") && !s.ends_with('-') && !s.contains('\r'),
+        K::PI => !s.contains("?>") && !s.starts_with(|c: char| c == ' ' || c == '\t' || c == '\n') && !s.contains('\r'),
+        _ => true,
+    }
+}
+
+fn ret_idx(r: &Ret) -> Option<usize> { match r { Ret::Node(x) => Some(x.idx), Ret::OptNode(Some(x)) => Some(x.idx), _ => None } }
+
+pub fn c13(ctx: &mut Ctx) {
+    let n: u64 = if ctx.thorough { 60_000 } else { 3_200 };
+    for i in 0..n {
+        if !ctx.mine(i) { continue; }
+        let mut r = ctx.rng(i);
+        ctx.begin(i, "");
+        let mut h = match new_history(&mut r, dom_cfg()) { Ok(h) => h, Err(e) => { ctx.inconclusive(&format!("document_not_usable:{}", crate::util::truncate(&e, 30))); continue; } };
+        let mut m = Model::from_pool(&h.pool);
+        let mut before = match snapshot(&h) { Ok(s) => s, Err(e) => { ctx.inconclusive(&format!("observation_failed:{}", crate::util::truncate(&e, 30))); continue; } };
+        if let Some((what, detail)) = compare_state(&h, &m, &before) { ctx.inconclusive("model_does_not_mirror_initial_document"); if ctx.notes.len() < 6 { ctx.notes.push(format!("{}: {} :: {}", what, detail, h.text)); } continue; }
+        let len = history_len(ctx, &mut r);
+        let mut done = 0;
+        let mut guard = 0;
+        while done < len && guard < len * 6 {
+            guard += 1;
+            let op = gen_op(&mut r, &h.pool, Profile::Specified);
+            let exp = m.expect(&op);
+            if exp.unspecified || exp.errs.contains(&E::NotCallable) { ctx.count("skipped/unspecified-by-DOM-Level-1"); continue; }
+            // an edit whose result the node kind cannot hold may be refused (C15 decides those)
+            if exp.ok { if let Some((k, res)) = m.result_data(&op) { if !storable(k, &res) { ctx.count("skipped/result-not-storable(see C15)"); continue; } } }
+            done += 1;
+            let desc = h.pool.describe_op(&op);
+            h.log.push(desc.clone());
+            ctx.evaluations += 1;
+            ctx.count(&format!("op/{}", op.name()));
+            ctx.count(&format!("expected/{}", if exp.ok { "ok".to_string() } else { exp.describe() }));
+            let out = h.pool.apply(&op);
+            m.sync_new(&h.pool);
+            let ctxs = |h: &Hist| format!("history {:?} :: doc {}", h.log, h.text);
+            let mut stop = false;
+            match out {
+                Outcome::Panic(p) => { ctx.violation(i, &format!("C13/dom/{}/{}/panic/{}", op.name(), exp.describe(), p), &format!("{} panicked :: {}", desc, ctxs(&h)), &[("doc", &h.text), ("history", &h.log.join("\n"))]); stop = true; }
+                Outcome::Ok(ret) => {
+                    if !exp.ok {
+                        ctx.violation(i, &format!("C13/dom/{}/{}{}/ok", op.name(), exp.describe(), arg_class(&op)), &format!("{} succeeded, DOM Level 1 demands {} :: {}", desc, exp.describe(), ctxs(&h)), &[("doc", &h.text), ("history", &h.log.join("\n"))]);
+                        // a factory that should have failed made a detached node: the history can go on with it
+                        if matches!(op, Op::CreateElement { .. } | Op::CreateAttribute { .. } | Op::CreatePI { .. } | Op::CreateEntRef { .. }) { let _ = m.apply(&op, ret_idx(&ret)); if let Ok(s) = snapshot(&h) { before = s; } } else { stop = true; }
+                    }
+                    else {
+                        let mut problem: Option<(String, String)> = None;
+                        match m.apply(&op, ret_idx(&ret)) {
+                            Err(msg) => problem = Some(("return-value".into(), msg)),
+                            Ok(Adopt::Nothing) => {}
+                            Ok(Adopt::Attr { e, local, value }) => {
+                                let found = match &h.pool.h[e].node { XmlNode::Element(el) => xml_dom::Element::get_attribute_node(el, &local), _ => None };
+                                match found { None => problem = Some(("effect".into(), format!("the element has no attribute {:?} afterwards", local))), Some(a) => {
+                                    let d = h.pool.h[e].doc; let an = a.as_node(); let ai = h.pool.register(&an, d);
+                                    let ch: Vec<usize> = an.child_nodes().iter().map(|c| h.pool.register(&c, d)).collect();
+                                    m.sync_new(&h.pool);
+                                    if let Err(msg) = m.adopt_attr(e, ai, &ch, &local, &value) { problem = Some(("effect".into(), msg)); }
+                                } }
+                            }
+                            Ok(Adopt::AttrChildren { a, value }) => {
+                                let d = h.pool.h[a].doc; let an = h.pool.h[a].node.clone();
+                                let ch: Vec<usize> = an.child_nodes().iter().map(|c| h.pool.register(&c, d)).collect();
+                                m.sync_new(&h.pool);
+                                if let Err(msg) = m.adopt_attr_children(a, &ch, &value) { problem = Some(("effect".into(), msg)); }
+                            }
+                        }
+                        if problem.is_none() { if let Some(want) = m.read(&op) { let got = match &ret { Ret::Str(s) => s.clone(), Ret::Num(n) => n.to_string(), _ => String::new() }; if got != want { problem = Some(("return-value".into(), format!("returned {:?}, DOM Level 1 says {:?}", got, want))); } } }
+                        match snapshot(&h) {
+                            Ok(after) => { if problem.is_none() { if let Some((what, detail)) = compare_state(&h, &m, &after) { problem = Some((format!("effect/{}", what), detail)); } } before = after; }
+                            Err(e) => { if problem.is_none() { problem = Some(("observation-error".into(), e)); } }
+                        }
+                        if let Some((what, detail)) = problem { ctx.violation(i, &format!("C13/dom/{}/ok/{}", op.name(), what), &format!("{} returned Ok but {} :: {}", desc, detail, ctxs(&h)), &[("doc", &h.text), ("history", &h.log.join("\n"))]); stop = true; }
+                    }
+                }
+                Outcome::Err(e) => {
+                    let class_ok = exp.errs.contains(&e);
+                    if !class_ok {
+                        let sig = if exp.ok { format!("C13/dom/{}/ok/{}", op.name(), e.name()) } else { format!("C13/dom/{}/{}{}/{}", op.name(), exp.describe(), arg_class(&op), e.name()) };
+                        ctx.violation(i, &sig, &format!("{} failed with {}, DOM Level 1 demands {} :: {}", desc, e.name(), exp.describe(), ctxs(&h)), &[("doc", &h.text), ("history", &h.log.join("\n"))]);
+                    }
+                    match snapshot(&h) {
+                        Ok(after) => { if after != before { ctx.violation(i, &format!("C13/dom/{}/{}/not-atomic/{}", op.name(), e.name(), what_changed(&before, &after)), &format!("{} failed with {} but changed the document ({}) :: {}", desc, e.name(), what_changed(&before, &after), ctxs(&h)), &[("doc", &h.text), ("history", &h.log.join("\n"))]); stop = true; } }
+                        Err(e2) => { ctx.violation(i, &format!("C13/dom/{}/{}/not-atomic/observation-error", op.name(), e.name()), &format!("{} :: {}", e2, ctxs(&h)), &[("doc", &h.text)]); stop = true; }
+                    }
+                }
+            }
+            if stop { break; }
+        }
+        ctx.nontrivial(&format!("{}|{}", h.log.join(";"), h.text));
+        if i % 199 == 0 { ctx.sample(&format!("{:?}  ON  {}", h.log, crate::util::truncate(&h.text, 200))); }
+        // hostile strings on a scratch document: whatever the library decides, it must not panic and a refusal must be atomic
+        if let Ok(d) = live_doc(SCRATCH_DOC) {
+            let mut sh = Hist { pool: Pool::new(vec![d.dom.clone()]), docs: vec![d], text: SCRATCH_DOC.into(), log: vec![] };
+            for _ in 0..8 {
+                let op = match gen_op(&mut r, &sh.pool, Profile::Markup) {
+                    Op::CreateElement { name, .. } => Op::CreateElement { d: 0, name }, Op::CreateText { data, .. } => Op::CreateText { d: 0, data }, Op::CreateComment { data, .. } => Op::CreateComment { d: 0, data },
+                    Op::CreateCData { data, .. } => Op::CreateCData { d: 0, data }, Op::CreatePI { target, data, .. } => Op::CreatePI { d: 0, target, data }, Op::CreateAttribute { name, .. } => Op::CreateAttribute { d: 0, name },
+                    Op::CreateEntRef { name, .. } => Op::CreateEntRef { d: 0, name }, o => o,
+                };
+                if !matches!(op, Op::CreateText { .. } | Op::CreateComment { .. } | Op::CreateCData { .. } | Op::CreatePI { .. } | Op::SetAttribute { .. } | Op::SetNodeValue { .. } | Op::SetData { .. } | Op::AppendData { .. } | Op::InsertData { .. } | Op::ReplaceData { .. } | Op::CreateElement { .. } | Op::CreateAttribute { .. } | Op::CreateEntRef { .. }) { continue; }
+                let desc = sh.pool.describe_op(&op);
+                let before = match snapshot(&sh) { Ok(s) => s, Err(_) => break };
+                ctx.evaluations += 1; ctx.count("hostile-string-calls");
+                match sh.pool.apply(&op) {
+                    Outcome::Panic(p) => { ctx.violation(i, &format!("C13/dom/{}/hostile-string/panic/{}", op.name(), p.split(".rs").next().unwrap_or("")), &format!("{} panicked ({}) on {}", desc, p, sh.text), &[("doc", &sh.text), ("history", &desc)]); break; }
+                    Outcome::Err(e) => { match snapshot(&sh) { Ok(after) => if after != before { ctx.violation(i, &format!("C13/dom/{}/{}/not-atomic/{}", op.name(), e.name(), what_changed(&before, &after)), &format!("{} failed with {} but changed the document :: history {:?} :: doc {}", desc, e.name(), sh.log, sh.text), &[("doc", &sh.text), ("history", &desc)]); break; }, Err(_) => break } }
+                    Outcome::Ok(_) => { sh.log.push(desc); }
+                }
+            }
+        }
+    }
+}
 pub fn c14(_: &mut Ctx) {}
 pub fn c15(_: &mut Ctx) {}
 pub fn c16(_: &mut Ctx) {}
-pub fn witness(_: &str, _: &[String], _: &mut Ctx) -> Option<String> { None }
+/// replay of the witnesses of recorded DOM findings: Some(signature) if the defect is still there
+pub fn witness(prop: &str, f: &[String], _: &mut Ctx) -> Option<String> {
+    let kind = f.first()?.as_str();
+    let d = live_doc(f.get(1).map(|s| s.as_str()).filter(|s| s.starts_with('<')).unwrap_or("<r/>")).ok()?;
+    let mut pool = Pool::new(vec![d.dom.clone()]);
+    match kind {
+        // fields: kind, factory, data
+        "factory-panics" => {
+            let data = f.get(2)?.clone();
+            let op = match f.get(1)?.as_str() { "text" => Op::CreateText { d: 0, data }, "comment" => Op::CreateComment { d: 0, data }, "cdata" => Op::CreateCData { d: 0, data }, _ => return None };
+            match pool.apply(&op) { Outcome::Panic(p) => Some(format!("{}/dom/{}/hostile-string/panic/{}", prop, op.name(), p)), _ => None }
+        }
+        // fields: kind, factory, name: a name that is not a Name must give INVALID_CHARACTER
+        "bad-name" => {
+            let name = f.get(2)?.clone();
+            let op = match f.get(1)?.as_str() { "pi" => Op::CreatePI { d: 0, target: name, data: "d".into() }, "entref" => Op::CreateEntRef { d: 0, name }, "element" => Op::CreateElement { d: 0, name }, "attribute" => Op::CreateAttribute { d: 0, name }, _ => return None };
+            match pool.apply(&op) { Outcome::Err(E::InvalidCharacter) => None, Outcome::Ok(_) => Some(format!("{}/dom/{}/INVALID_CHARACTER/ok", prop, op.name())), Outcome::Err(e) => Some(format!("{}/dom/{}/INVALID_CHARACTER/{}", prop, op.name(), e.name())), Outcome::Panic(p) => Some(format!("{}/panic/{}", prop, p)) }
+        }
+        _ => None,
+    }
+}
 
 #[allow(dead_code)]
 fn _unused(_: &Model, _: &Adopt, _: &E, _: Rc<u8>) { let _ = first_diff; }
